@@ -259,6 +259,91 @@ fn in_sim<T: Send + 'static>(seed: u64, f: impl FnOnce() -> T + Send + 'static) 
     v
 }
 
+/// What the C12 / C15 scenarios deliver through the notify stub for a real operation, compared with what the real
+/// notify crate (inotify back-end) reports for the same operation on a scratch directory. Real time and a real
+/// watcher thread: this runs outside the simulator and only validates the stub's table. If inotify is not usable
+/// here (no watcher can be created) the comparison is skipped with a note; a difference is printed as a warning.
+fn notify_kinds() {
+    use real_notify::event::*;
+    use real_notify::{RecursiveMode, Watcher};
+    use std::time::{Duration, Instant};
+    let dir = std::env::temp_dir().join(format!("verif-fidelity-notify-{}", std::process::id()));
+    let _ = std::fs::remove_dir_all(&dir);
+    std::fs::create_dir_all(&dir).unwrap();
+    let dir = dir.canonicalize().unwrap();
+    let log: Arc<Mutex<Vec<(EventKind, Vec<std::path::PathBuf>)>>> = Default::default();
+    let l2 = log.clone();
+    let mut w = match real_notify::recommended_watcher(move |e: real_notify::Result<real_notify::Event>| {
+        if let Ok(e) = e {
+            l2.lock().unwrap().push((e.kind, e.paths));
+        }
+    }) {
+        Ok(w) => w,
+        Err(e) => {
+            println!("fidelity note: no inotify watcher available here ({e}); notification kinds not compared");
+            let _ = std::fs::remove_dir_all(&dir);
+            return;
+        }
+    };
+    if let Err(e) = w.watch(&dir, RecursiveMode::Recursive) {
+        println!("fidelity note: cannot watch a scratch directory ({e}); notification kinds not compared");
+        let _ = std::fs::remove_dir_all(&dir);
+        return;
+    }
+    // (operation, the (kind, path) pairs the stub's table delivers for it)
+    let f = dir.join("a.x");
+    let g = dir.join("b.x");
+    let d = dir.join("sub");
+    type Step<'a> = (&'a str, Box<dyn Fn() + 'a>, Vec<(EventKind, std::path::PathBuf)>);
+    let steps: Vec<Step> = vec![
+        ("create file", Box::new(|| std::fs::write(&f, b"1").unwrap()), vec![(EventKind::Create(CreateKind::File), f.clone())]),
+        ("write file", Box::new(|| std::fs::write(&f, b"22").unwrap()), vec![(EventKind::Modify(ModifyKind::Data(DataChange::Any)), f.clone())]),
+        ("rename file", Box::new(|| std::fs::rename(&f, &g).unwrap()), vec![(EventKind::Modify(ModifyKind::Name(RenameMode::From)), f.clone()), (EventKind::Modify(ModifyKind::Name(RenameMode::To)), g.clone())]),
+        ("remove file", Box::new(|| std::fs::remove_file(&g).unwrap()), vec![(EventKind::Remove(RemoveKind::File), g.clone())]),
+        ("create directory", Box::new(|| std::fs::create_dir(&d).unwrap()), vec![(EventKind::Create(CreateKind::Folder), d.clone())]),
+        ("remove directory", Box::new(|| std::fs::remove_dir(&d).unwrap()), vec![(EventKind::Remove(RemoveKind::Folder), d.clone())]),
+    ];
+    let mut seen_total = 0;
+    for (what, op, expect) in &steps {
+        log.lock().unwrap().clear();
+        op();
+        let t0 = Instant::now();
+        let mut missing = expect.clone();
+        while !missing.is_empty() && t0.elapsed() < Duration::from_secs(5) {
+            std::thread::sleep(Duration::from_millis(20));
+            let got = log.lock().unwrap().clone();
+            missing.retain(|(k, p)| !got.iter().any(|(gk, gp)| gk == k && gp.first() == Some(p)));
+        }
+        let got = log.lock().unwrap().clone();
+        if got.is_empty() && seen_total == 0 {
+            println!("fidelity note: the watcher reports nothing for {what} within 5 s; notification kinds not compared");
+            let _ = std::fs::remove_dir_all(&dir);
+            return;
+        }
+        seen_total += got.len();
+        if !missing.is_empty() {
+            // real time and a real kernel queue: reported, not fatal (the notify version is pinned by Cargo.lock, so a
+            // difference here is about this machine's inotify, not about the library)
+            println!("fidelity WARNING: notify stub table differs from what the real notify crate reported within 5 s for `{what}`:\n the scenarios deliver {expect:?}\n inotify reported    {got:?}");
+            let _ = std::fs::remove_dir_all(&dir);
+            return;
+        }
+        // nothing the real back-end reports besides these may be of a kind the handler acts on for another path
+        for (k, p) in &got {
+            let acts = !matches!(k, EventKind::Access(_) | EventKind::Other);
+            let ours = p.iter().all(|x| expect.iter().any(|(_, e)| e == x) || x == &dir);
+            if acts && !ours {
+                println!("fidelity WARNING: the real notify crate reports {k:?} for {p:?} during `{what}`, a path the stub's table does not mention");
+                let _ = std::fs::remove_dir_all(&dir);
+                return;
+            }
+        }
+    }
+    drop(w);
+    let _ = std::fs::remove_dir_all(&dir);
+    println!("fidelity ok: notification kinds delivered by the stub for create / write / rename / remove of files and directories are the ones the real notify crate reports (inotify, {seen_total} events seen)");
+}
+
 fn main() {
     detsim::install_quiet_panic_hook();
     std::panic::set_hook(Box::new(|_| {}));
@@ -307,5 +392,6 @@ fn main() {
         eprintln!("HARNESS-ERROR: parking_lot-style mutex model differs on unwind");
         std::process::exit(2);
     }
+    notify_kinds();
     println!("fidelity ok: {n} channel/Select sequences, {n} OnceCell sequences, poisoning and unwind behaviour agree with the real crates");
 }
